@@ -179,6 +179,12 @@ where
         let mut populations = state.populations_mut();
         let mut rng = state.random_mut();
 
+        // With a bound of zero, the only delta in `[-bound, bound]` is zero and nothing is moved
+        // (`Uniform::new` panics on the empty range `[0, 0)`).
+        if state.get_value::<MutationStrength<Self>>() == 0. {
+            return state.borrow::<MutationRate<Self>>().value().map(|_| ());
+        }
+
         let bound = state.get_value::<MutationStrength<Self>>();
         ensure!(bound >= 0., "bound must be positive");
         let distr = Uniform::new(0., bound);
